@@ -6,6 +6,7 @@ import (
 	"fmt"
 	"os"
 	"path/filepath"
+	"runtime"
 	"strconv"
 	"strings"
 	"sync"
@@ -127,11 +128,59 @@ func TestSim(t *testing.T) {
 			if st == 0 || time.Since(time.Unix(0, st)) < stuckAfter {
 				continue
 			}
-			if onStuck != nil {
+			// where everybody is
+			buf := make([]byte, 8<<20)
+			buf = buf[:runtime.Stack(buf, true)]
+			// a goroutine that is running inside the service's own code and never comes to rest is a verdict, not
+			// trouble: the service spins (livelock). It is reported like any other violation, with the tape
+			// consumed so far as replay (the run is stuck right where that tape ends).
+			if site := spinningSite(string(buf)); site != "" {
+				r, tp := execRun.Load(), execTape.Load()
+				v := &Violation{Prop: job.Prop, Class: "livelock", Sig: job.Prop + "|livelock|" + site,
+					Msg: fmt.Sprintf("the run did not come to rest within %v of real time: a goroutine of the service keeps running in %s without ever waiting (holding whatever it holds)", stuckAfter, site)}
+				res := &Result{Seed: execSeed.Load(), Viol: v}
+				if r != nil {
+					v.Step = r.Step
+					res.Trace, res.Cfg = append([]string{}, r.Trace...), r.Cfg
+					res.Digest = digestLines(res.Trace)
+				}
+				if tp != nil {
+					res.Tape = append([]uint32{}, tp.Out...)
+				}
+				switch job.Mode {
+				case "replay":
+					exp := ""
+					if rfRaw, err := os.ReadFile(job.ReplayFile); err == nil {
+						var rf ReplayFile
+						if json.Unmarshal(rfRaw, &rf) == nil && rf.Violation != nil {
+							exp = rf.Violation.Sig
+							out.Replay = map[string]any{"violation": v, "same_sig": v.Sig == exp, "same_digest": res.Digest == rf.Digest, "digest": res.Digest, "expected_digest": rf.Digest, "trace": res.Trace}
+						}
+					}
+					out.Runs = 1
+				case "shrink":
+					if onStuck != nil {
+						onStuck(execSeed.Load(), stuckAfter)
+					}
+				default:
+					rf := writeReplay(&job, e, res.Seed, res, len(res.Tape), fmt.Sprintf("tmp-w%d-stuck-", job.Worker))
+					out.Violations = append(out.Violations, ViolOut{Violation: v, Seed: res.Seed, Replay: rf, TapeLen: len(res.Tape), OrigLen: len(res.Tape)})
+					out.Stats["violating_runs"]++
+					out.Stats["livelock_runs"]++
+					out.Runs++
+				}
+			} else if onStuck != nil {
 				onStuck(execSeed.Load(), stuckAfter)
 			} else {
 				out.HarnessErrors = append(out.HarnessErrors, fmt.Sprintf("seed=%d: execution did not end within %v of real time", execSeed.Load(), stuckAfter))
 			}
+			dump := job.Out + ".stuck-goroutines.txt"
+			if job.ReplayDir != "" {
+				_ = os.MkdirAll(job.ReplayDir, 0o755)
+				dump = filepath.Join(job.ReplayDir, fmt.Sprintf("tmp-stuck-%d-goroutines.txt", execSeed.Load()))
+			}
+			_ = os.WriteFile(dump, buf, 0o644)
+			out.HarnessErrors = append(out.HarnessErrors, "goroutine dump of the stuck run: "+dump)
 			out.WallS = time.Since(start).Seconds()
 			b, _ := json.Marshal(out)
 			_ = os.WriteFile(job.Out, b, 0o644)
@@ -286,6 +335,14 @@ func doShrink(e *Engine, job *Job, out *WorkerOut) {
 		return
 	}
 	job.Opt = rf.Opt
+	if rf.Violation != nil && rf.Violation.Class == "livelock" {
+		// every candidate would have to be waited for until the watchdog fires: the tape is kept as found
+		res := &Result{Seed: rf.Seed, Tape: rf.Tape, Viol: rf.Violation, Digest: rf.Digest, Cfg: rf.Cfg, Trace: rf.Trace}
+		p := writeReplay(job, e, rf.Seed, res, rf.OrigLen, "")
+		out.Violations = append(out.Violations, ViolOut{Violation: rf.Violation, Seed: rf.Seed, Replay: p, TapeLen: len(rf.Tape), OrigLen: rf.OrigLen})
+		out.Runs = 1
+		return
+	}
 	orig := execute(e, rf.Property, rf.Tier, rf.Seed, NewReplayTape(rf.Tape), rf.Opt)
 	out.Runs = 1
 	if rf.Violation != nil && rf.Violation.Class == "data-race" {
